@@ -34,7 +34,11 @@ theorem skeleton_unchanged :
      Gen.Skel.conds_Mux_DropConn,
      Gen.Skel.stmts_Mux_DropConn,
      Gen.Skel.conds_Mux_loadState,
-     Gen.Skel.conds_Mux_storeState)
+     Gen.Skel.stmts_Mux_loadState,
+     Gen.Skel.conds_Mux_storeState,
+     Gen.Skel.stmts_Mux_storeState,
+     Gen.Skel.conds_state_pickMethodHandler,
+     Gen.Skel.stmts_state_pickMethodHandler)
   = (Expected.C12.conds_state_clone,
      Expected.C12.stmts_state_clone,
      Expected.C12.conds_path_clone,
@@ -50,7 +54,11 @@ theorem skeleton_unchanged :
      Expected.C12.conds_Mux_DropConn,
      Expected.C12.stmts_Mux_DropConn,
      Expected.C12.conds_Mux_loadState,
-     Expected.C12.conds_Mux_storeState) := rfl
+     Expected.C12.stmts_Mux_loadState,
+     Expected.C12.conds_Mux_storeState,
+     Expected.C12.stmts_Mux_storeState,
+     Expected.C12.conds_state_pickMethodHandler,
+     Expected.C12.stmts_state_pickMethodHandler) := rfl
 
 /-- the three writer calls take the lock before loading and release it after storing. -/
 theorem writer_order : ∀ p ∈ Gen.Skel.writerOrder, p.2 = ["lock", "load", "modify", "store", "unlock"] := by decide
